@@ -159,6 +159,16 @@ class AWSElastiCacheHashClient(HashClient):
         """
         old_clients = self.clients.copy()
         self.clients.clear()
+        # Rotation membership lives in the hasher (and the failed/dead
+        # bookkeeping), not in the clients dict: forget the old nodes there too.
+        self._failed_clients.clear()
+        self._dead_clients.clear()
+        for key in old_clients:
+            try:
+                self.hasher.remove_node(key)
+            except ValueError:
+                # already out of rotation (evicted as dead)
+                pass
 
         for server in self._get_nodes_list():
             self.add_server(normalize_server_spec(server))
